@@ -1,5 +1,5 @@
 (* C16 driver: one case per line
-     <id> s<size>|w<len> ... -- <op> <args> ...      (see harness/c16_ident.c)
+     <id> s<size>|w<len>|t32 ... -- <op> <args> ...      (see harness/c16_ident.c, harness/c16_cxx.cpp)
    prints "M <id> tok..." (mechanism model) and "S <id> tok..." (specification). *)
 let gen_byte seed i = 1 + ((seed * 31 + i * 7 + i / 253) mod 255)
 
@@ -14,6 +14,10 @@ let data_of s =
         n_of_int (if i = flip then (if b = 255 then 1 else b + 1) else b))
     | _ -> failwith ("bad data " ^ s)
   end else bytes_of_hex s
+
+(* item<T> (mptcore/core.h): 32 bytes, of which reference<T> takes 8; the identifier part is constructed with
+   total = sizeof(identifier) + sizeof(_post) = 24 *)
+let item_ident_size = 24
 
 let optlen s = let n = int_of_string s in if n < 0 then None else Some (nat_of_int n)
 let nat s = nat_of_int (int_of_string s)
@@ -31,6 +35,18 @@ let rec parse_ops toks = match toks with
   | "ineq" :: i :: j :: r -> OInequal (nat i, nat j) :: parse_ops r
   | "new" :: n :: r -> ONew (nat n) :: parse_ops r
   | "node" :: n :: r -> ONode (nat n) :: parse_ops r
+  (* members of the C++ class identifier (harness/c16_cxx.cpp) *)
+  | "xset" :: i :: d :: r -> let b = data_of d in OXSet (nat i, Some b, Some (nat_of_int (List.length b))) :: parse_ops r
+  | "xsetz" :: i :: d :: r -> OXSet (nat i, Some (data_of d @ [N0]), None) :: parse_ops r
+  | "xraw" :: i :: n :: r -> OXSet (nat i, None, optlen n) :: parse_ops r
+  | "xeq" :: i :: d :: r -> let b = data_of d in OXEqual (nat i, Some b, Some (nat_of_int (List.length b))) :: parse_ops r
+  | "xeqz" :: i :: d :: r -> OXEqual (nat i, Some (data_of d @ [N0]), None) :: parse_ops r
+  | "xeqn" :: i :: n :: r -> OXEqual (nat i, None, optlen n) :: parse_ops r
+  | "xname" :: i :: r -> OXName (nat i) :: parse_ops r
+  | "xcopy" :: i :: j :: r -> OXAssign (nat i, nat j) :: parse_ops r
+  | "xctor" :: i :: j :: r -> OXCtor (nat i, nat j) :: parse_ops r
+  | "xnew" :: i :: n :: r -> OXNew (nat i, nat n) :: parse_ops r
+  | "xitem" :: i :: r -> OXNew (nat i, nat_of_int item_ident_size) :: parse_ops r
   | t :: _ -> failwith ("bad op " ^ t)
 
 let show_bytes l =
@@ -57,6 +73,8 @@ let show_out is_new o = match o with
   | OSign SZero -> "q:0" | OSign SNeg -> "q:lt" | OSign SPos -> "q:gt"
   | OMax (Some m) -> "n:" ^ string_of_int (int_of_nat m)
   | OMax None -> "n:R"
+  | OName None -> "N:NULL"
+  | OName (Some d) -> "N:" ^ show_bytes d
   | OFault -> "F"
 
 let show_slot ((l, c), d) = Printf.sprintf "%d.%d.%s" (int_of_nat l) (int_of_n c) (show_bytes d)
@@ -94,6 +112,7 @@ let () =
       let sizes = List.filter_map (fun t ->
         let n = int_of_string (String.sub t 1 (String.length t - 1)) in
         if t.[0] = 'w' then (match new_size (nat_of_int n) with Some s -> Some s | None -> None)
+        else if t.[0] = 't' then Some (nat_of_int item_ident_size)
         else if n < 16 then None else Some (nat_of_int n)) slots in
       let w = init_world sizes in
       let ops = parse_ops ops in
